@@ -36,8 +36,15 @@ func parseFor(f []byte, want packet.PayloadID) (payload []byte, hostNil bool, ok
 	if err != nil || frame.PayloadID != want {
 		return nil, false, false
 	}
+	lastIP6 = "nil"
+	if v := frame.IP6(); v != nil {
+		lastIP6 = hx(v)
+	}
 	return frame.Payload(), frame.Host == nil, true
 }
+
+// lastIP6: frame.IP6() of the frame parseFor accepted last ("nil": no IPv6 header, e.g. ICMPv6 in IPv4)
+var lastIP6 string
 
 var bcast = net.HardwareAddr{0xff, 0xff, 0xff, 0xff, 0xff, 0xff}
 
@@ -452,8 +459,7 @@ func genICMP4(cl *caseList, rng *lib.Rand, scale int) {
 func genICMP6(cl *caseList, rng *lib.Rand, scale int) {
 	add := func(class string, src, dst netip.Addr, typ byte, body []byte) {
 		dbg, hunt := tf(rng.Chance(40)), tf(rng.Chance(30))
-		unspecTok := tf(src == netip.IPv6Unspecified())
-		flag := func(_ []byte, hostNil bool) []string { return []string{dbg, unspecTok, tf(!hostNil), hunt} }
+		flag := func(_ []byte, hostNil bool) []string { return []string{dbg, lastIP6, tf(!hostNil), hunt} }
 		f := lib.MkEther(net.HardwareAddr{0x33, 0x33, 0, 0, 0, 1}, peerMAC, 0x86dd, lib.MkIP6(src, dst, 58, 255, lib.MkICMP6(src, dst, typ, 0, body)))
 		addProc(cl, "icmp6", class, f, packet.PayloadICMP6, flag)
 	}
@@ -576,6 +582,47 @@ func dhcpReplyOf(f []byte, captured bool) (tok string) {
 		return fmt.Sprint(pos)
 	}
 	return
+}
+
+// ICMPv6 carried by IPv4 (protocol 58) and ICMPv4 carried by IPv6 (next header 1): Parse accepts
+// both and classifies by the protocol number alone, so the processor of the OTHER IP version is
+// dispatched without its IP header (frame.IP6() / frame.IP4() are nil)
+func genCrossICMP(cl *caseList, rng *lib.Rand, scale int) {
+	bodies6 := func() [][]byte {
+		tgt := netip.MustParseAddr("2001:db8::50").AsSlice()
+		opts, _ := optBlock(rng, 2)
+		return [][]byte{
+			append(append([]byte{135, 0, 0, 0, 0, 0, 0, 0}, tgt...), optLLA(1, rng)...),    // NS
+			append(append([]byte{136, 0, 0, 0, 0x20, 0, 0, 0}, tgt...), optLLA(2, rng)...), // NA override
+			append([]byte{134, 0, 0, 0, 64, 0x40, 7, 8, 0, 0, 0, 0, 0, 0, 0, 0}, opts...),  // RA
+			append([]byte{133, 0, 0, 0, 0, 0, 0, 0}, optLLA(1, rng)...),                    // RS
+			{128, 0, 0, 0, 0, 1, 0, 2, 1, 2, 3, 4}, {129, 0, 0, 0, 0, 1, 0, 2},             // echo
+			append([]byte{137, 0, 0, 0, 0, 0, 0, 0}, rng.Bytes(40)...),                       // redirect
+			{143, 0, 0, 0, 0, 0, 0, 1}, {1, 0, 0, 0, 0, 0, 0, 0}, {200, 0, 0, 0, 0, 0, 0, 0}, // MLDv2, unreachable, unknown
+		}
+	}
+	for k := 0; k < 4*scale; k++ {
+		for _, b := range bodies6() {
+			f := lib.MkEther(hostMAC, peerMAC, 0x0800, lib.MkIP4(peerIP4, netip.MustParseAddr("192.168.0.129"), 58, 64, b))
+			dbg, hunt := tf(rng.Bool()), tf(rng.Chance(30))
+			addProc(cl, "icmp6", "in-ipv4", f, packet.PayloadICMP6,
+				func(_ []byte, hostNil bool) []string { return []string{dbg, lastIP6, tf(!hostNil), hunt} })
+			for cut := 0; cut < len(b) && k == 0; cut += 3 {
+				ft := lib.MkEther(hostMAC, peerMAC, 0x0800, lib.MkIP4(peerIP4, netip.MustParseAddr("192.168.0.129"), 58, 64, b[:cut]))
+				addProc(cl, "icmp6", "in-ipv4.trunc", ft, packet.PayloadICMP6,
+					func(_ []byte, hostNil bool) []string { return []string{dbg, lastIP6, tf(!hostNil), hunt} })
+			}
+		}
+		inner := lib.MkIP4(netip.MustParseAddr("192.168.0.129"), netip.MustParseAddr("8.8.8.8"), 17, 64, lib.MkUDP(5000, 53, []byte{1, 2, 3, 4}))
+		for _, b := range [][]byte{
+			lib.MkICMPEcho(8, 0, 1, 2, []byte{1, 2, 3}), lib.MkICMPEcho(0, 0, 1, 2, nil),
+			append([]byte{3, 3, 0, 0, 0, 0, 0, 0}, inner...), append([]byte{5, 0, 0, 0}, rng.Bytes(12)...), {13, 0, 0, 0, 0, 0, 0, 0},
+		} {
+			f := lib.MkEther(hostMAC, peerMAC, 0x86dd, lib.MkIP6(peerLLA, hostLLA, 1, 64, b))
+			info := tf(rng.Bool())
+			addProc(cl, "icmp4", "in-ipv6", f, packet.PayloadICMP4, func([]byte, bool) []string { return []string{info} })
+		}
+	}
 }
 
 func genDHCP4(cl *caseList, rng *lib.Rand, scale int) {
